@@ -365,7 +365,10 @@ Owed(r) == /\ rq[r].nrep = 0 /\ ~rq[r].closed
 DoQuiet ==
     /\ bad' = LET owed == {r \in DOMAIN rq : Owed(r)} IN
               IF owed = {} THEN bad
-              ELSE Flag(FALSE, "C01", "request never answered although every attempt was answered or dropped", CHOOSE r \in owed : TRUE)
+              ELSE LET afterprep == {r \in owed : rq[r].mode = "prep"} IN
+                   \* C08: "if re-preparation fails the request moves on to the next host instead of hanging or being dropped"
+                   IF afterprep # {} THEN Flag(FALSE, "C08", "request hangs after its statement was re-prepared (never re-executed, never answered)", CHOOSE r \in afterprep : TRUE)
+                   ELSE Flag(FALSE, "C01", "request never answered although every attempt was answered or dropped", CHOOSE r \in owed : TRUE)
     /\ UNCHANGED <<rq, conn, out>>
 
 =============================================================================
